@@ -62,6 +62,14 @@ func writerTrace(w wl.Workload, reads string) (*wl.Trace, []byte) {
 				tr.Add(wl.Ev{"ev": "LexRetain", "validate": validate, "small": small, "n": rr.N, "changed": rr.Changed, "end": rr.End})
 			}
 		}
+		// lexers built from one options value (one Decompressors map) return what a lexer with its own options returns
+		for _, validate := range []bool{false, true} {
+			if w.Cfg.Chunked && w.Cfg.Compression == "xor" {
+				break // needs the custom decompressor object, which cannot serve two lexers at once
+			}
+			rr := run.LexShared(b, w.Cfg.SkipMagic, validate)
+			tr.Add(wl.Ev{"ev": "LexRetain", "via": "shared-options", "validate": validate, "small": false, "n": rr.N, "changed": rr.Changed, "end": rr.End})
+		}
 	}
 	// Reader has no option to skip the magic or to supply a decompressor: those files are read with the lexer only
 	if strings.Contains(reads, "scan") && !w.Cfg.SkipMagic && !(w.Cfg.Chunked && w.Cfg.Compression == "xor") {
@@ -161,6 +169,20 @@ func wrun(args []string) error {
 						return err
 					}
 				}
+			}
+		}
+		// one message far larger than the chunk size (1.2-3 MiB against 1-64 KiB) among small ones, under every compression
+		for i, comp := range []string{"", "zstd", "lz4", "", "xor", ""} {
+			if i >= *n {
+				break
+			}
+			c := wl.Cfg{Chunked: true, ChunkSize: []int64{1024, 4096, 65536, 512, 2048, 1 << 20}[i], Compression: comp, CRC: i%2 == 0}
+			bigKiB := 1200 + g.R.Intn(1800)
+			if c.ChunkSize == 1<<20 {
+				bigKiB = 4400
+			}
+			if err := do(wl.Workload{ID: fmt.Sprintf("oversized%d-%d", *seed, i), Cfg: c, Calls: g.OversizedCalls([]int{0, 5, 17}[i%3], bigKiB)}); err != nil {
+				return err
 			}
 		}
 	case "asm":
